@@ -153,6 +153,11 @@ fn check_plan(c: &Ctx<'_>, plan: &FaultPlan, rep_out: &mut RunReport) -> Option<
                     HardKind::Err(IoKind::WouldBlock) => "fault.sink.err.wouldblock",
                     HardKind::Err(IoKind::StorageFull) => "fault.sink.err.storagefull",
                     HardKind::Err(IoKind::TimedOut) => "fault.sink.err.timedout",
+                    HardKind::Err(IoKind::ConnectionReset) => "fault.sink.err.connectionreset",
+                    HardKind::Err(IoKind::PermissionDenied) => "fault.sink.err.permissiondenied",
+                    HardKind::Err(IoKind::UnexpectedEof) => "fault.sink.err.unexpectedeof",
+                    HardKind::Err(IoKind::WriteZero) => "fault.sink.err.writezero",
+                    HardKind::Err(IoKind::Unsupported) => "fault.sink.err.unsupported",
                     HardKind::Zero => "fault.sink.zero_hard",
                     HardKind::ShortThenErr(..) => "fault.sink.short_then_err",
                 },
@@ -272,7 +277,7 @@ fn check_world(spec: &WorldSpec, policy: PolicyKind, rng: &mut Rng, only: Option
     }
     if wcalls >= 2 {
         rep.distinct.push(Fnv::new().u64(spec.hash()).u64(policy as u64).finish());
-        rep.bump("fault_points_enumerated", (wcalls * 14) as u64);
+        rep.bump("fault_points_enumerated", (wcalls * 24) as u64);
     }
     rep.bump("templates_with_partials_reached", (w.source.total_reads() > 0) as u64);
     // hard faults: every k, every kind, both stickiness modes
@@ -464,7 +469,7 @@ impl Engine for C10 {
     }
 
     fn rule(&self) -> String {
-        "one run = one generated (template, partial set, data, policy); the sink fails at every write index k in 1..W with every hard kind (5 error kinds, Ok(0), short-then-error) in one-shot and sticky mode, plus seeded short-write/EINTR plans and double faults; a case is non-trivial when the fault-free run makes >= 2 write calls (a fault can land strictly inside the output); distinct = distinct (template+partials+data, policy) hashes among those".into()
+        "one run = one generated (template, partial set, data, policy); the sink fails at every write index k in 1..W with every hard kind (10 io::ErrorKinds, Ok(0), short-then-error) in one-shot and sticky mode, plus seeded short-write/EINTR plans and double faults; a case is non-trivial when the fault-free run makes >= 2 write calls (a fault can land strictly inside the output); distinct = distinct (template+partials+data, policy) hashes among those".into()
     }
     fn assumptions(&self) -> Vec<String> {
         vec![
